@@ -159,25 +159,28 @@ type pAPI struct {
 }
 
 type pResult struct {
-	ID              int        `json:"id"`
-	Events          []pEvent   `json:"events"`
-	RunStarted      bool       `json:"run_started"`
-	RunReturned     bool       `json:"run_returned"`
-	RunErr          string     `json:"run_err"`
-	RunErrText      string     `json:"run_err_text"`
-	FinalVer        int        `json:"final_ver"`
-	RunPanicked     string     `json:"run_panicked,omitempty"`
-	API             []pAPI     `json:"api"`
-	SendersDone     []bool     `json:"senders_done"`
-	ScriptTimeout   *int       `json:"script_timeout"`
-	Output          []int      `json:"output"`
-	OutputAtReturn  int        `json:"output_at_return"`
-	PausedAtEnd     []string   `json:"paused_at_end,omitempty"`
-	Errors          []string   `json:"errors,omitempty"`
-	Crashed         bool       `json:"crashed,omitempty"`
-	CrashText       string     `json:"crash_text,omitempty"`
-	WallMs          int64      `json:"wall_ms"`
-	Stuck           string     `json:"stuck,omitempty"`
-	TermiosRestored *bool      `json:"termios_restored,omitempty"`
-	Writes          [][2]int64 `json:"writes,omitempty"` // (microseconds since the scenario began, bytes) per Write call on the output, when asked for
+	ID              int      `json:"id"`
+	Events          []pEvent `json:"events"`
+	RunStarted      bool     `json:"run_started"`
+	RunReturned     bool     `json:"run_returned"`
+	RunErr          string   `json:"run_err"`
+	RunErrText      string   `json:"run_err_text"`
+	FinalVer        int      `json:"final_ver"`
+	RunPanicked     string   `json:"run_panicked,omitempty"`
+	API             []pAPI   `json:"api"`
+	SendersDone     []bool   `json:"senders_done"`
+	ScriptTimeout   *int     `json:"script_timeout"`
+	Output          []int    `json:"output"`
+	OutputAtReturn  int      `json:"output_at_return"`
+	PausedAtEnd     []string `json:"paused_at_end,omitempty"`
+	Errors          []string `json:"errors,omitempty"`
+	Crashed         bool     `json:"crashed,omitempty"`
+	CrashText       string   `json:"crash_text,omitempty"`
+	WallMs          int64    `json:"wall_ms"`
+	Stuck           string   `json:"stuck,omitempty"`
+	TermiosRestored *bool    `json:"termios_restored,omitempty"`
+	// fd-canary: how often a descriptor the harness had just opened was closed by somebody else
+	FdStolen   *int       `json:"fd_stolen,omitempty"`
+	FdCanaries int        `json:"fd_canaries,omitempty"`
+	Writes     [][2]int64 `json:"writes,omitempty"` // (microseconds since the scenario began, bytes) per Write call on the output, when asked for
 }
